@@ -261,6 +261,7 @@ def observe_setup(args):
             tgt = 'T%d_scheduled' % opt_ids[0]
             naming = (lambda k, i, _c=con_ids[0], _t=tgt: _t if (k == 'K' and i == _c) else impl.default_naming(k, i))
         out['naming'] = 'flag-named constraint' if naming is not impl.default_naming else 'default'
+        out['has_buffer'] = any(o[0] == 'ONewBuffer' for o in prog)
         for c in cfgs:
             im = impl.Impl(naming=naming)
             res = im.run(prog)
@@ -671,7 +672,11 @@ def parse_terms(decls, sexprs, z3):
 def cross_config(prop, res):
     """definite answers agree across configurations; optimum agrees"""
     out = []
-    recs = [rec for rec in res['per_cfg'] if rec.get('verdict') in ('sat', 'unsat')]
+    # agreement is required among definite answers "in a logic that covers the problem": the encoding of a buffer uses arrays
+    # (non-concurrent) or quantified assertions over uninterpreted functions (concurrent), outside every quantifier-free
+    # arithmetic logic -- such (problem, logic) pairs only take part in the validity check of the returned schedule
+    recs = [rec for rec in res['per_cfg'] if rec.get('verdict') in ('sat', 'unsat')
+            and not (rec['cfg'].get('logics') and res.get('has_buffer'))]
     if len({rec['verdict'] for rec in recs}) > 1:
         out.append(('verdicts-differ', None, [(rec['cfg'], rec['verdict']) for rec in recs]))
     for rec in recs:
